@@ -278,7 +278,11 @@ static ReadOut read_bare(int rig, const uint8_t* d, size_t n, int ctx, bool pref
   }
 }
 // contexts are instantiated for every 11th version only (compile cost); all pairs among them are explored
+#ifdef CTX_ALL
+static constexpr bool ctx_version(int) { return true; }  // thorough tier: every version in every wrapping context
+#else
 static constexpr bool ctx_version(int i) { return i % 11 == 0; }
+#endif
 
 template <bool Reader, bool Ctx, class TV>
 struct Reg {
